@@ -86,6 +86,10 @@ type c06World struct {
 	met            *kit.RecService
 	metByRA        sync.Map
 	listenerClosed atomic.Bool
+	// dial accounting for the listener-close variant: the listener may only be closed once every connection the
+	// probes have established has been accepted (closing a listening socket resets its backlog - the tester's
+	// doing, not the server's)
+	dialed atomic.Int32
 }
 
 func newC06World(keys []kit.KeySpec, cacheN int) (*c06World, error) {
@@ -206,7 +210,7 @@ func c06Wire(w *c06World, p C06Probe, attempt int64) (wire []byte, class string,
 }
 
 // c06One runs one probe connection and judges it. upper: whether to judge upper time bounds.
-func c06One(w *c06World, p C06Probe, cacheOn bool, attempt int64) (f *kit.Finding, boundHit bool, class string) {
+func c06One(w *c06World, p C06Probe, cacheOn bool, attempt int64, dialNote ...func()) (f *kit.Finding, boundHit bool, class string) {
 	wire, class, preface := c06Wire(w, p, attempt)
 	if class == "relay" {
 		return nil, false, class
@@ -233,6 +237,12 @@ func c06One(w *c06World, p C06Probe, cacheOn bool, attempt int64) (f *kit.Findin
 	}
 	t0 := time.Now()
 	conn, err := kit.DialTCP(w.front.Addr, 5*time.Second)
+	if err == nil {
+		w.dialed.Add(1)
+	}
+	for _, note := range dialNote {
+		note()
+	}
 	if err != nil {
 		if kit.EnvNetError(err) || w.listenerClosed.Load() {
 			return nil, false, "relay"
@@ -340,18 +350,28 @@ func runC06Batch(c C06Batch, info *kit.Info) *kit.Finding {
 	res := make([]*kit.Finding, len(c.Probes))
 	hit := make([]bool, len(c.Probes))
 	classes := make([]string, len(c.Probes))
-	var wg sync.WaitGroup
+	var wg, dialPhase sync.WaitGroup
+	var noted sync.Map
 	for i := range c.Probes {
 		if c.Probes[i].Kind == "replay" || c.Probes[i].Kind == "postdial" || c.Probes[i].Kind == "postdial_fin" {
 			continue // these use the shared target's accept queue: run sequentially below
 		}
 		wg.Add(1)
+		dialPhase.Add(1)
 		go func(i int) {
 			defer wg.Done()
-			res[i], hit[i], classes[i] = c06One(w, c.Probes[i], c.CacheN > 0, 0)
+			note := func() {
+				if _, dup := noted.LoadOrStore(i, true); !dup {
+					dialPhase.Done()
+				}
+			}
+			defer note() // probes that are not presented at all
+			res[i], hit[i], classes[i] = c06One(w, c.Probes[i], c.CacheN > 0, 0, note)
 		}(i)
 	}
 	if c.CloseListenerMs > 0 {
+		dialPhase.Wait()
+		kit.WaitFor(3*time.Second, func() bool { return len(w.met.TCPConns()) >= int(w.dialed.Load()) })
 		time.Sleep(time.Duration(c.CloseListenerMs) * time.Millisecond)
 		w.listenerClosed.Store(true)
 		w.front.L.Close()
